@@ -223,9 +223,10 @@ Proof.
   intros Hpc Hfile. destruct (g_move p HWF m Hleg) as (Hf & Ht & _).
   destruct (c_pawn_kinds Hpc) as [(k & Hk & Hd)|(k & Hk & Hd & _ & Hmask)].
   - exfalso. apply Hfile. apply (zf_shift _ _ (- (delta w k / 8))). unfold delta in *. destruct Hk as [-> | ->]; destruct w; cbn in *; lia.
-  - destruct (masks_spec (mto m) Ht) as (_ & _ & _ & MA & MB). rewrite MA, MB in Hmask.
+  - destruct (masks_spec (mto m) Ht) as (_ & _ & _ & MA & MB).
     destruct (sq_decomp _ Hf) as (Ef & Hff & Hfr). destruct (sq_decomp _ Ht) as (Et & Htf & Htr).
-    unfold delta in Hd. destruct Hk as [-> | ->]; destruct w; cbn in Hmask, Hd; apply negb_true_iff, Z.eqb_neq in Hmask; lia.
+    unfold delta in Hd. destruct Hk as [-> | ->]; unfold w in *; destruct (whiteMove p); cbn [N.eqb Pos.eqb] in Hmask; cbn in Hd;
+      rewrite ?MA, ?MB in Hmask; apply negb_true_iff, Z.eqb_neq in Hmask; lia.
 Qed.
 
 (** the promotion piece *)
